@@ -34,6 +34,28 @@ CHECKS = {
         'technique': 'TLA+ design model (ConnTick, safety + liveness) + TLC-generated schedules replayed into the real handler + '
                      'TLC trace validation against Conn.tla',
     },
+    'C02': {
+        'text': 'Conversations of 1..3 grammar-generated proxy requests (all framings, header casing/spacing variants, proxy headers, '
+                'operator-disabled headers, with/without proxy auth) go through the REAL handler + HttpProxyPlugin on in-memory sockets, '
+                'each request delivered in seeded pieces (whole, cuts inside line ends, random cuts, one byte per segment), origin '
+                'answering in lock step. TLC (TraceForward) parses BOTH what the client sent and what the origin received with the '
+                'TLA+ reference parser and decides Expected(request, configuration): method, origin-form target, version, header set '
+                'minus proxy-authorization / proxy-connection / disabled plus Via, decoded body, sane framing, for every position.',
+        'design_ref': 'DESIGN.md section 6, C02',
+        'note': 'Trusted: TLC, SimNet. Byte-exhaustive cut positions are covered by C03; several requests in one segment by C04.',
+        'technique': 'TLA+ reference parser + Expected relation (TraceForward) deciding recorded conversations of the real forward proxy',
+    },
+    'C08': {
+        'text': 'Authorized(headers, credentials) is defined in TLA+ (TraceAuth) from the RAW configured user:password (base64 computed in '
+                'TLA+) and the reference parse of the client bytes. Every credential situation (absent, scheme casings, other schemes, '
+                'token truncated/extended/case-flipped/re-encoded, extra parameters, duplicates) x header-name casing x method incl. '
+                'CONNECT x segmentation x with/without a recording user plugin runs through the REAL handler with flags from the real '
+                'FlagParser; TLC decides: unauthenticated => well-formed 407 + close, no connect, nothing forwarded, no later-plugin hook; '
+                'authenticated => served, credentials never reach the origin (first and later request).',
+        'design_ref': 'DESIGN.md section 6, C08',
+        'note': 'Trusted: TLC, SimNet. Conflicting duplicate credential lines and tab separators are left unconstrained.',
+        'technique': 'TLA+ definition of Authorized + outcome clauses (TraceAuth) deciding recorded conversations of the real proxy with auth on',
+    },
     'C03': {
         'text': 'Reference one-shot semantics of HTTP/1.x messages written in TLA+ (Http.tla: start line, headers, Content-Length / '
                 'chunked framing with extensions and trailers, message end, remainder). The ideal incremental parser is accumulate + '
